@@ -33,6 +33,9 @@ def run(ctx):
     for rec in struct.core_runs(h, maxlen, res=res):
         check(res, rec)
         n += 1
+    for rec in struct.core_runs(h, 2, res=res, classes=("DirectedEdge",), vcls="SymFalsyVert"):
+        check(res, rec)
+        n += 1
     res.rule("I1-STEP/core", n)
     m = 0
     for rec in struct.ctor_runs(h, res=res):
